@@ -85,6 +85,13 @@ QPivot == {Q(tg, NoE, <<RefIdx(g1), RefIdx(g2)>>, NoE, <<>>, pv, FALSE, -1) :
               pv \in {<<RefIdx(1), RefIdx(2)>>, <<RefE(Col("kk")), RefE(Col("ss"))>>, <<RefIdx(2), RefIdx(1)>>, <<RefE(Col("ss")), RefIdx(1)>>}}
        \cup {Q(<<T(Agg("sum", cV), "sv"), T(cS, "ss"), T(cK, "kk")>>, NoE, <<RefIdx(2), RefIdx(3)>>, NoE, <<>>, <<RefIdx(3), RefIdx(2)>>, FALSE, -1)}
 
+\* C15: invalid PIVOT BY references must be rejected at compile time
+QPivotInvalid == {
+    Q(<<T(cK, "kk"), T(cS, "ss"), T(Agg("sum", cV), "sv")>>, NoE, <<RefIdx(1), RefIdx(2)>>, NoE, <<>>, pv, FALSE, -1) :
+        pv \in {<<RefIdx(1), RefIdx(1)>>, <<RefIdx(1), RefIdx(3)>>, <<RefIdx(2), RefIdx(3)>>, <<RefIdx(1), RefIdx(4)>>, <<RefIdx(0), RefIdx(2)>>,
+                <<RefE(Col("zz")), RefIdx(2)>>, <<RefE(Col("kk")), RefE(Col("sv"))>>, <<RefE(Col("ss")), RefE(Col("ss"))>>}}
+    \cup {Q(<<T(cK, "kk"), T(cS, "ss"), T(cV, "vv")>>, NoE, <<>>, NoE, <<>>, <<RefIdx(1), RefIdx(2)>>, FALSE, -1)}
+
 \* C05: invalid statements of every rule (and a few valid neighbours)
 QInvalid == {
     Q(<<T(Bin("add", cS, cV), "x")>>, NoE, <<>>, NoE, <<>>, <<>>, FALSE, -1),
@@ -105,6 +112,10 @@ QInvalid == {
     Q(<<T(cK, ""), T(Agg("sum", cV), "sv")>>, NoE, <<RefE(cK)>>, NoE, <<O(RefE(Agg("sum", Agg("count", cV))), FALSE)>>, <<>>, FALSE, -1),
     Q(<<T(cK, "")>>, NoE, <<>>, NoE, <<O(RefE(Agg("sum", cV)), FALSE)>>, <<>>, FALSE, -1),
     Q(<<T(cK, ""), T(cS, "")>>, NoE, <<>>, NoE, <<O(RefIdx(3), FALSE)>>, <<>>, FALSE, -1),
+    Q(<<T(cK, ""), T(Agg("sum", cV), "sv")>>, NoE, <<RefE(cK), RefE(cS)>>, NoE, <<O(RefIdx(3), FALSE)>>, <<>>, FALSE, -1),
+    Q(<<T(cK, ""), T(Agg("sum", cV), "sv")>>, NoE, <<RefE(cK)>>, Bin("gt", Agg("sum", cV), Const(IntV(0))), <<O(RefIdx(3), TRUE)>>, <<>>, FALSE, -1),
+    Q(<<T(cK, ""), T(Agg("sum", cV), "sv")>>, NoE, <<RefE(cK), RefE(cS)>>, NoE, <<O(RefIdx(2), FALSE)>>, <<RefIdx(1), RefIdx(3)>>, FALSE, -1),
+    Q(<<T(Agg("count", Star), "c")>>, NoE, <<RefE(cK), RefIdx(2)>>, NoE, <<>>, <<>>, FALSE, -1),
     Q(<<T(cK, ""), T(cS, "")>>, NoE, <<>>, NoE, <<O(RefIdx(0), FALSE)>>, <<>>, FALSE, -1),
     Q(<<T(cK, ""), T(cS, "")>>, NoE, <<>>, NoE, <<O(RefE(Col("nope")), FALSE)>>, <<>>, FALSE, -1),
     Q(<<T(cK, ""), T(cS, "")>>, NoE, <<>>, NoE, <<>>, <<RefIdx(1), RefIdx(2)>>, FALSE, -1),
@@ -121,9 +132,9 @@ Queries ==
     CASE QuerySet = "plain" -> QPlain
       [] QuerySet = "order" -> QOrder \cup QDistinct
       [] QuerySet = "group" -> QGroup1 \cup QGroup2 \cup QHaving \cup QHidden \cup QNoRows
-      [] QuerySet = "pivot" -> QPivot
+      [] QuerySet = "pivot" -> QPivot \cup QPivotInvalid
       [] QuerySet = "invalid" -> QInvalid
-      [] OTHER -> QPlain \cup QOrder \cup QDistinct \cup QGroup1 \cup QGroup2 \cup QHaving \cup QHidden \cup QNoRows \cup QPivot \cup QInvalid
+      [] OTHER -> QPlain \cup QOrder \cup QDistinct \cup QGroup1 \cup QGroup2 \cup QHaving \cup QHidden \cup QNoRows \cup QPivot \cup QPivotInvalid \cup QInvalid
 
 -----------------------------------------------------------------------------
 VARIABLES code, q, phase, i, keys, groups, rows, passhi, out, table, cq
